@@ -200,6 +200,18 @@ def run_one(case, tally):
             snaps["kwargs"] = snapshot(Config.from_mapping(**{key: value}))
             obj = types.SimpleNamespace(**{key: value})
             snaps["object"] = snapshot(Config.from_object(obj))
+            # "Python object": the usual shapes of a settings object - a class, a class that inherits its settings, an instance whose
+            # settings are class attributes, an instance of a class with __slots__
+            base = type("Base", (), {key: value})
+            snaps["object-class"] = snapshot(Config.from_object(base))
+            snaps["object-subclass"] = snapshot(Config.from_object(type("Production", (base,), {})))
+            snaps["object-instance-of-class"] = snapshot(Config.from_object(base()))
+            try:
+                slotted = type("Slotted", (), {"__slots__": (key,)})()
+                setattr(slotted, key, value)
+                snaps["object-slots"] = snapshot(Config.from_object(slotted))
+            except Exception as e:  # the loader has to cope; what it raises is reported as a disagreement
+                snaps["object-slots"] = "raised %s" % type(e).__name__
             modname = "hv_c19_mod_%d" % (abs(hash((key, repr(value)))) % 10 ** 9)
             with open(os.path.join(tmp, modname + ".py"), "w") as f:
                 f.write("%s = %r\n" % (key, value))
@@ -230,6 +242,9 @@ def run_one(case, tally):
                 findings.append({"clause": "loaders-agree", "sig": "C19.loader/mapping/%s" % key,
                                  "detail": "from_mapping({%r: %r}) gives %s" % (key, value, ref[key])})
             for name, sn in snaps.items():
+                if isinstance(sn, str):
+                    findings.append({"clause": "loaders-agree", "sig": "C19.loader/%s/raised" % name, "detail": "%s=%r: loader %s %s" % (key, value, name, sn)})
+                    continue
                 diff = {k: (ref[k], sn[k]) for k in ref if ref[k] != sn[k]}
                 if diff:
                     findings.append({"clause": "loaders-agree", "sig": "C19.loader/%s/%s" % (name, sorted(diff)[0]),
